@@ -156,7 +156,21 @@ func fullCoef(t *rapid.T) *big.Int {
 
 // genAddPair draws operand pairs for add/sub (see DESIGN §4 "pair generators").
 func genAddPair(t *rapid.T) (D, D) {
-	switch ir(t, 0, 9, "pairKind") {
+	switch ir(t, 0, 10, "pairKind") {
+	case 10:
+		// one operand runs along the digits of a power of two (genPow2Lead) and is the one that gets scaled up:
+		// the other sits 1..45 places below with a short or arbitrary coefficient
+		x := DFin(genSign(t), genPow2Lead(t), genExp(t))
+		nx := x.Num()
+		c := genCoef(t)
+		if ir(t, 0, 1, "short") == 0 {
+			c = bi(int64(ir(t, 1, 999, "small")))
+		}
+		y := DFin(genSign(t), c, clampExp(nx.Exp-ir(t, 1, 45, "below")))
+		if rapid.Bool().Draw(t, "swap") {
+			x, y = y, x
+		}
+		return x, y
 	case 0:
 		return genFinite(t), genFinite(t)
 	case 1, 2:
